@@ -14,6 +14,8 @@
 #include <smooth/so2.hpp>
 #include <smooth/so3.hpp>
 
+#include <sstream>
+
 #include "common.hpp"
 
 using namespace vh;
@@ -311,6 +313,128 @@ bool eval_group(const std::string & op, const std::vector<typename smooth::lieba
   } else if (op == "rminus") {
     const G g1 = from_coeffs<G>(A.template vec<Coef>()), g2 = from_coeffs<G>(A.template vec<Coef>());
     put(out, g1 - g2);
+  } else if (op == "fcompose3") {  // variadic free composition(g1, g2, g3) = (g1 g2) g3
+    const G g1 = from_coeffs<G>(A.template vec<Coef>()), g2 = from_coeffs<G>(A.template vec<Coef>()),
+            g3 = from_coeffs<G>(A.template vec<Coef>());
+    put(out, smooth::composition(g1, g2, g3).coeffs());
+  } else if (op == "compose_cmap") {  // both operands are const views over caller-owned memory
+    const Coef c1 = A.template vec<Coef>(), c2 = A.template vec<Coef>();
+    const smooth::Map<const G> m1(c1.data()), m2(c2.data());
+    put(out, (m1 * m2).coeffs());
+  } else if (op == "inverse_cmap") {
+    const Coef c1 = A.template vec<Coef>();
+    const smooth::Map<const G> m1(c1.data());
+    put(out, m1.inverse().coeffs());
+  } else if (op == "mulassign_mapself") {  // Map<G> m over x's storage; m *= x  (receiver is the view, operand the value)
+    G x = from_coeffs<G>(A.template vec<Coef>());
+    smooth::Map<G> m(x.data());
+    m *= x;
+    put(out, x.coeffs());
+  } else if (op == "mulassign_mapmap") {  // two views over ONE buffer: Map<G> m *= Map<const G> c
+    Coef buf = A.template vec<Coef>();
+    smooth::Map<G> m(buf.data());
+    const smooth::Map<const G> c(buf.data());
+    m *= c;
+    put(out, buf);
+  } else if (op == "identity_free") {
+    put(out, smooth::Identity<G>().coeffs());
+  } else if (op == "set_identity") {  // member setIdentity() on a value holding arbitrary coefficients
+    G x = from_coeffs<G>(A.template vec<Coef>());
+    x.setIdentity();
+    put(out, x.coeffs());
+  } else if (op == "set_identity_map") {
+    Coef buf = A.template vec<Coef>();
+    smooth::Map<G> m(buf.data());
+    m.setIdentity();
+    put(out, buf);
+  } else if (op == "consts") {  // RepSize Dof Dim IsCommutative dof() smooth::dof(g) smooth::Dof<G> smooth::IsCommutative<G>
+    const G g = G::Identity();
+    out.push_back(S(G::RepSize));
+    out.push_back(S(G::Dof));
+    out.push_back(S(G::Dim));
+    out.push_back(S(G::IsCommutative ? 1 : 0));
+    out.push_back(S(g.dof()));
+    out.push_back(S(smooth::dof(g)));
+    out.push_back(S(smooth::Dof<G>));
+    out.push_back(S(smooth::IsCommutative<G> ? 1 : 0));
+  } else if (op == "isapprox" || op == "fisapprox") {  // inputs g1 g2 eps; eps < 0 stands for "use the default argument"
+    const G g1 = from_coeffs<G>(A.template vec<Coef>()), g2 = from_coeffs<G>(A.template vec<Coef>());
+    const S eps = A.template vec<Eigen::Matrix<S, 1, 1>>()(0);
+    bool r;
+    if (op == "isapprox") r = g1.isApprox(g2, eps);
+    else r = smooth::isApprox(g1, g2, eps);
+    out.push_back(S(r ? 1 : 0));
+  } else if (op == "isapprox_default") {  // called WITHOUT eps (default = NumTraits<S>::dummy_precision(), passed as the last
+    // input word only so that the model knows it); member and free function
+    const G g1 = from_coeffs<G>(A.template vec<Coef>()), g2 = from_coeffs<G>(A.template vec<Coef>());
+    (void)A.template vec<Eigen::Matrix<S, 1, 1>>();
+    out.push_back(S(g1.isApprox(g2) ? 1 : 0));
+    out.push_back(S(smooth::isApprox(g1, g2) ? 1 : 0));
+  } else if (op == "stream") {  // operator<<: the coefficients, printed with 17 significant digits, parsed back
+    const G g = from_coeffs<G>(A.template vec<Coef>());
+    std::ostringstream os;
+    os.precision(17);
+    os << g;
+    std::istringstream is(os.str());
+    double v;
+    while (is >> v) out.push_back(S(v));
+  } else if (op == "random_elem") {  // an element produced by one of the four public ways to draw a random element travels in the
+    // INPUT slot (there is nothing to predict); the check audits the representation constraint on it.  No outputs.
+    (void)A.template vec<Coef>();
+  } else if (op == "fexp") {
+    put(out, smooth::exp<G>(A.template vec<Tangent>()).coeffs());
+  } else if (op == "flog") {
+    put(out, smooth::log(from_coeffs<G>(A.template vec<Coef>())));
+  } else if (op == "log_cmap") {
+    const Coef c1 = A.template vec<Coef>();
+    const smooth::Map<const G> m1(c1.data());
+    put(out, m1.log());
+  } else if (op == "frplus") {
+    const G g = from_coeffs<G>(A.template vec<Coef>());
+    put(out, smooth::rplus(g, A.template vec<Tangent>()).coeffs());
+  } else if (op == "frminus") {
+    const G g1 = from_coeffs<G>(A.template vec<Coef>()), g2 = from_coeffs<G>(A.template vec<Coef>());
+    put(out, smooth::rminus(g1, g2));
+  } else if (op == "lplus") {
+    const G g = from_coeffs<G>(A.template vec<Coef>());
+    put(out, smooth::lplus(g, A.template vec<Tangent>()).coeffs());
+  } else if (op == "lminus") {
+    const G g1 = from_coeffs<G>(A.template vec<Coef>()), g2 = from_coeffs<G>(A.template vec<Coef>());
+    put(out, smooth::lminus(g1, g2));
+  } else if (op == "pluseq") {  // in-place right-plus on a value
+    G x = from_coeffs<G>(A.template vec<Coef>());
+    x += A.template vec<Tangent>();
+    put(out, x.coeffs());
+  } else if (op == "pluseq_map") {  // in-place right-plus through a view
+    Coef buf = A.template vec<Coef>();
+    smooth::Map<G> m(buf.data());
+    m += A.template vec<Tangent>();
+    put(out, buf);
+  } else if (op == "pluseq_log") {  // x += x.log() : the tangent is computed from the object that is updated
+    G x = from_coeffs<G>(A.template vec<Coef>());
+    x += x.log();
+    put(out, x.coeffs());
+  } else if (op == "rminus_cmap") {
+    const Coef c1 = A.template vec<Coef>(), c2 = A.template vec<Coef>();
+    const smooth::Map<const G> m1(c1.data());
+    const G g2 = from_coeffs<G>(c2);
+    put(out, m1 - g2);
+  } else if (op == "fAd") {
+    put(out, smooth::Ad(from_coeffs<G>(A.template vec<Coef>())));
+  } else if (op == "Ad_cmap") {
+    const Coef c1 = A.template vec<Coef>();
+    const smooth::Map<const G> m1(c1.data());
+    put(out, m1.Ad());
+  } else if (op == "fad") {
+    put(out, smooth::ad<G>(A.template vec<Tangent>()));
+  } else if (op == "fdr_exp") {
+    put(out, smooth::dr_exp<G>(A.template vec<Tangent>()));
+  } else if (op == "fdr_expinv") {
+    put(out, smooth::dr_expinv<G>(A.template vec<Tangent>()));
+  } else if (op == "fdl_exp") {
+    put(out, smooth::dl_exp<G>(A.template vec<Tangent>()));
+  } else if (op == "fdl_expinv") {
+    put(out, smooth::dl_expinv<G>(A.template vec<Tangent>()));
   } else if (op == "dr_rminus") {
     put(out, smooth::dr_rminus<G>(A.template vec<Tangent>()));
   } else if (op == "dr_rminus_sqn") {
@@ -324,6 +448,14 @@ bool eval_group(const std::string & op, const std::vector<typename smooth::lieba
       put(out, G::d2r_expinv(A.template vec<Tangent>()));
     } else if (op == "d2l_expinv") {
       put(out, G::d2l_expinv(A.template vec<Tangent>()));
+    } else if (op == "fd2r_exp") {
+      put(out, smooth::d2r_exp<G>(A.template vec<Tangent>()));
+    } else if (op == "fd2r_expinv") {
+      put(out, smooth::d2r_expinv<G>(A.template vec<Tangent>()));
+    } else if (op == "fd2l_exp") {
+      put(out, smooth::d2l_exp<G>(A.template vec<Tangent>()));
+    } else if (op == "fd2l_expinv") {
+      put(out, smooth::d2l_expinv<G>(A.template vec<Tangent>()));
     } else if (op == "d2r_rminus") {
       put(out, smooth::d2r_rminus<G>(A.template vec<Tangent>()));
     } else if (op == "d2r_rminus_sqn") {
@@ -348,11 +480,22 @@ bool eval_action(const std::string & op, const std::vector<typename G::Scalar> &
     const G g = from_coeffs<G>(A.template vec<Coef>());
     const Eigen::Matrix<S, NV, 1> v = A.template vec<Eigen::Matrix<S, NV, 1>>();
     put(out, g * v);
-  } else if (op == "dr_action") {
-    if constexpr (!std::is_same_v<G, smooth::SO2<S>> && !std::is_same_v<G, smooth::SE2<S>> && !std::is_same_v<G, smooth::C1<S>>) {
-      const G g = from_coeffs<G>(A.template vec<Coef>());
+  } else if (op == "act_cmap") {
+    const Coef c = A.template vec<Coef>();
+    const smooth::Map<const G> m(c.data());
+    const Eigen::Matrix<S, NV, 1> v = A.template vec<Eigen::Matrix<S, NV, 1>>();
+    put(out, m * v);
+  } else if (op == "dr_action" || op == "dr_action_cmap") {
+    if constexpr (!std::is_same_v<G, smooth::C1<S>>) {  // C1 has no dr_action
+      const Coef c = A.template vec<Coef>();
       const Eigen::Matrix<S, NV, 1> v = A.template vec<Eigen::Matrix<S, NV, 1>>();
-      put(out, g.dr_action(v));
+      if (op == "dr_action") {
+        const G g = from_coeffs<G>(c);
+        put(out, g.dr_action(v));
+      } else {
+        const smooth::Map<const G> m(c.data());
+        put(out, m.dr_action(v));
+      }
     } else {
       return false;
     }
@@ -483,6 +626,147 @@ struct Emit
       go("d2l_expinv", t, al);
       go("d2r_rminus", t, al);
       go("d2r_rminus_sqn", t, al);
+      api_ops(i, n, g1, g2, g3, a, al, a2, b, c, t);
+    }
+    api_regions(n);
+  }
+
+  // ---- API paths beside the member functions above: the free-function interface of concepts/lie_group.hpp,
+  // the in-place operators, const views as receivers.  Thinned (i % 3) where the path is a one-line forward.
+  using Coef = Eigen::Matrix<S, G::RepSize, 1>;
+  void api_ops(int i, int n, const G & g1, const G & g2, const G & g3, const Tangent & a, const Tangent & al, const Tangent & a2,
+    const Tangent & b, const Tangent & c, const char * t)
+  {
+    (void)n; (void)b;
+    const G gm = g1 * G::exp(al);
+    go("pluseq", t, g1.coeffs(), c);
+    go("pluseq_map", t, g2.coeffs(), c);
+    go("lplus", t, g1.coeffs(), c);
+    go("lminus", t, gm.coeffs(), g1.coeffs());
+    if (i % 3 == 0) {
+      go("fcompose3", t, g1.coeffs(), g2.coeffs(), g3.coeffs());
+      go("compose_cmap", t, g1.coeffs(), g2.coeffs());
+      go("inverse_cmap", t, g1.coeffs());
+      go("mulassign_mapself", t, g3.coeffs());
+      go("mulassign_mapmap", t, g1.coeffs());
+      go("set_identity", t, g1.coeffs());
+      go("set_identity_map", t, g2.coeffs());
+      go("stream", t, g1.coeffs());
+      go("fexp", t, a);
+      go("flog", t, G::exp(a2).coeffs());
+      go("log_cmap", t, g1.coeffs());
+      go("frplus", t, g1.coeffs(), c);
+      go("frminus", t, gm.coeffs(), g1.coeffs());
+      go("rminus_cmap", t, gm.coeffs(), g1.coeffs());
+      go("pluseq_log", t, G::exp(a2 * S(0.4)).coeffs());
+      go("fAd", t, g1.coeffs());
+      go("Ad_cmap", t, g2.coeffs());
+      go("fad", t, a);
+      go("fdr_exp", t, a);
+      go("fdr_expinv", t, al);
+      go("fdl_exp", t, a);
+      go("fdl_expinv", t, al);
+      go("fd2r_exp", t, a);
+      go("fd2r_expinv", t, al);
+      go("fd2l_exp", t, a);
+      go("fd2l_expinv", t, al);
+    }
+    {  // isApprox: identical, perturbed far below / far above the threshold, unrelated
+      using E1 = Eigen::Matrix<S, 1, 1>;
+      const S dp = Eigen::NumTraits<S>::dummy_precision();
+      Tangent d  = Tangent::Zero();
+      if (d.size() > 0) d(i % d.size()) = S(1);
+      // far from every threshold: relative coefficient distance <= 1e-3 dp resp. >= 1e-4 (translations up to 1e3) resp. ~5e-3
+      const G near = g1 * G::exp(d * (dp * S(1e-3))), far = g1 * G::exp(d * S(1)), mid = g1 * G::exp(d * S(1e-2));
+      go("isapprox", "same", g1.coeffs(), g1.coeffs(), E1(dp));
+      go("isapprox", "below", g1.coeffs(), near.coeffs(), E1(dp));
+      go("isapprox", "above", g1.coeffs(), far.coeffs(), E1(dp));
+      go("fisapprox", "other", g1.coeffs(), g2.coeffs(), E1(dp));
+      go("fisapprox", "loose", g1.coeffs(), mid.coeffs(), E1(S(0.5)));
+      // the default threshold itself: coefficient vectors at relative distance dp/4 and 4 dp (isApprox reads coefficients only)
+      const Coef cb = g1.coeffs() * (S(1) + dp / S(4)), ca = g1.coeffs() * (S(1) + dp * S(4));
+      go("isapprox_default", "below", g1.coeffs(), cb, E1(dp));
+      go("isapprox_default", "above", g1.coeffs(), ca, E1(dp));
+      go("isapprox", "below", g1.coeffs(), cb, E1(dp));
+      go("fisapprox", "above", g1.coeffs(), ca, E1(dp));
+    }
+  }
+
+  // ---- input regions that the stratified tangents above do not reach: the zero tangent, whole-argument-tiny tangents
+  // (EVERY coordinate tiny, not only the rotation angle), the identity element, identical operands
+  void api_regions(int n)
+  {
+    go("identity_free", "");
+    go("consts", "");
+    {
+      std::srand(unsigned(r.next() & 0x7fffffff));
+      for (int k = 0; k < 2; ++k) {
+        go("random_elem", "Random", G::Random().coeffs());
+        go("random_elem", "free_Random", smooth::Random<G>().coeffs());
+        go("random_elem", "free_Random_dof", smooth::Random<G>(G::Dof).coeffs());
+        G x = G::Identity();
+        x.setRandom();
+        go("random_elem", "setRandom", x.coeffs());
+        Coef buf = Coef::Zero();
+        smooth::Map<G> mp(buf.data());
+        mp.setRandom();
+        go("random_elem", "setRandom_map", buf);
+      }
+    }
+    const G e = G::Identity();
+    const Tangent z = Tangent::Zero();
+    for (const char * op : {"exp", "fexp", "logexp", "hat", "ad", "fad", "dr_exp", "dr_expinv", "dl_exp", "dl_expinv", "fdr_exp", "d2r_exp", "d2r_expinv",
+           "d2l_exp", "d2l_expinv", "dr_rminus", "dr_rminus_sqn", "d2r_rminus", "d2r_rminus_sqn", "Adexp"})
+      go(op, "zero_vec", z);
+    for (const char * op : {"log", "flog", "log_cmap", "inverse", "finverse", "inverse_cmap", "matrix", "Ad", "fAd", "sqassign", "mulassign_map", "mulassign_mapself",
+           "mulassign_mapmap", "pluseq_log"})
+      go(op, "identity_elem", e.coeffs());
+    go("rplus", "identity_elem", e.coeffs(), z);
+    go("rminus", "identity_elem", e.coeffs(), e.coeffs());
+    go("lminus", "identity_elem", e.coeffs(), e.coeffs());
+    go("bracket", "zero_vec", z, z);
+    const int m = std::max(2, n / 6);
+    for (int i = 0; i < m; ++i) {
+      const S tiny = std::is_same_v<S, double> ? S(i % 2 ? 1e-14 : 1e-9) : S(i % 2 ? 1e-7 : 1e-5);
+      const Tangent at = tan(i + 4, 1) * tiny;
+      const G g = elem(3 * i + 1), h = elem(5 * i + 2);
+      for (const char * op : {"exp", "fexp", "logexp", "dr_exp", "dr_expinv", "dl_exp", "dl_expinv", "fdr_expinv", "fdl_exp", "d2r_exp", "d2r_expinv", "d2l_exp",
+             "d2l_expinv", "fd2r_exp", "fd2l_expinv", "dr_rminus", "d2r_rminus", "dr_rminus_sqn", "d2r_rminus_sqn", "Adexp"})
+        go(op, "tiny_a", at);
+      go("rplus", "tiny_a", g.coeffs(), at);
+      go("frplus", "tiny_a", g.coeffs(), at);
+      go("lplus", "tiny_a", g.coeffs(), at);
+      go("pluseq", "tiny_a", g.coeffs(), at);
+      go("pluseq_map", "tiny_a", g.coeffs(), at);
+      go("rplus", "zero_vec", g.coeffs(), z);
+      go("pluseq", "zero_vec", g.coeffs(), z);
+      go("lplus", "zero_vec", g.coeffs(), z);
+      {
+        const G gt = g * G::exp(at);  // operands that differ by a tiny tangent, and identical operands
+        go("rminus", "tiny_a", gt.coeffs(), g.coeffs());
+        go("frminus", "tiny_a", gt.coeffs(), g.coeffs());
+        go("lminus", "tiny_a", gt.coeffs(), g.coeffs());
+        go("rminus", "same_elem", g.coeffs(), g.coeffs());
+        go("lminus", "same_elem", g.coeffs(), g.coeffs());
+        go("rminus_cmap", "same_elem", g.coeffs(), g.coeffs());
+      }
+      // aliased in-place operators on every kind of element (elem() includes exact half turns, i % 13 == 7)
+      go("sqassign", "alias", h.coeffs());
+      go("mulassign_map", "alias", h.coeffs());
+      go("mulassign_mapself", "alias", h.coeffs());
+      go("mulassign_mapmap", "alias", h.coeffs());
+      go("pluseq_log", "alias", G::exp(tan(i, 2) * S(0.45)).coeffs());
+    }
+    {  // exact half turns as operands of every element-valued op
+      G hh = elem(7);
+      go("log", "half_turn", hh.coeffs());
+      go("flog", "half_turn", hh.coeffs());
+      go("Ad", "half_turn", hh.coeffs());
+      go("inverse", "half_turn", hh.coeffs());
+      go("sqassign", "half_turn", hh.coeffs());
+      go("mulassign_mapmap", "half_turn", hh.coeffs());
+      go("rminus", "half_turn", hh.coeffs(), e.coeffs());
+      go("lminus", "half_turn", hh.coeffs(), e.coeffs());
     }
   }
 };
@@ -503,7 +787,8 @@ void run_action(FILE * f, Rng & r, int n)
     const G g = e.elem(i);
     Eigen::Matrix<S, NV, 1> v;
     for (int k = 0; k < NV; ++k) v(k) = S(gen_trans(r, i));
-    for (const char * op : {"act", "dr_action"}) {
+    for (const char * op : {"act", "dr_action", "act_cmap", "dr_action_cmap"}) {
+      if (i % 3 != 0 && std::string(op).find("_cmap") != std::string::npos) continue;
       std::vector<S> x, out;
       put(x, g.coeffs());
       put(x, v);
@@ -618,6 +903,11 @@ struct GenVisitor
   }
 };
 
+inline bool is_action_op(const std::string & op)
+{
+  return op == "act" || op == "dr_action" || op == "act_cmap" || op == "dr_action_cmap";
+}
+
 template<class S>
 struct EvalVisitor
 {
@@ -629,7 +919,7 @@ struct EvalVisitor
   template<class G>
   void group()
   {
-    if (!done && op != "act" && op != "dr_action" && Gen<G>::name() == grp) {
+    if (!done && !is_action_op(op) && Gen<G>::name() == grp) {
       out.clear();
       done = eval_group<G>(op, x, out);
     }
@@ -637,7 +927,7 @@ struct EvalVisitor
   template<class G, int NV>
   void action()
   {
-    if (!done && (op == "act" || op == "dr_action") && Gen<G>::name() == grp) {
+    if (!done && is_action_op(op) && Gen<G>::name() == grp) {
       out.clear();
       done = eval_action<G, NV>(op, x, out);
     }
